@@ -322,61 +322,30 @@ func famC16(c *hx.Ctx) []*scenario {
 		maxW = 10
 		mult = 20
 	}
+	// a reactive subscriber acknowledges exactly what it receives (never an id that is not in flight):
+	// immediately, in batches of a full window, in reverse order, one at a time, or with reconnects in between
 	for w := 1; w <= maxW; w++ {
-		for _, pattern := range []string{"immediate", "batched", "reverse", "reconnect", "none"} {
-			n := w * (1 + c.Rng.Intn(mult))
-			steps := []step{in(connectPkt(false, nil))}
-			var pending []int // ids in flight at the peer (ids are handed out 1,2,3… for qos>0 messages)
-			nextID := 1
-			ackOne := func(id int, q int) {
-				if q == 1 {
-					steps = append(steps, in(&packet.Puback{ID: packet.ID(id)}))
-				} else {
-					steps = append(steps, in(&packet.Pubrec{ID: packet.ID(id)}), in(&packet.Pubcomp{ID: packet.ID(id)}))
-				}
-			}
-			qosOf := map[int]int{}
-			for i := 0; i < n; i++ {
-				q := c.Rng.Intn(3)
-				steps = append(steps, step{kind: "deq", msg: msg(i, q)})
-				if q > 0 {
-					qosOf[nextID] = q
-					pending = append(pending, nextID)
-					nextID++
-				}
-				switch pattern {
-				case "immediate":
-					if len(pending) >= w {
-						for _, id := range pending {
-							ackOne(id, qosOf[id])
-						}
-						pending = nil
-					}
-				case "batched", "reverse", "reconnect":
-					if len(pending) >= w {
-						ids := append([]int(nil), pending...)
-						if pattern == "reverse" {
-							for a, b := 0, len(ids)-1; a < b; a, b = a+1, b-1 {
-								ids[a], ids[b] = ids[b], ids[a]
-							}
-						}
-						if pattern == "reconnect" && i%2 == 0 {
-							steps = append(steps, step{kind: "inerr"}, step{kind: "reconnect", resumed: true}, in(connectPkt(false, nil)))
-						}
-						for _, id := range ids {
-							ackOne(id, qosOf[id])
-						}
-						pending = nil
+		for _, react := range []string{"immediate", "batched", "reverse", "slow"} {
+			for _, reconnect := range []bool{false, true} {
+				n := w * (1 + c.Rng.Intn(mult))
+				steps := []step{in(connectPkt(false, nil))}
+				for i := 0; i < n; i++ {
+					steps = append(steps, step{kind: "deq", msg: msg(i, c.Rng.Intn(3))})
+					if reconnect && i%(w+1) == w {
+						steps = append(steps, step{kind: "inerr"}, step{kind: "reconnect", resumed: true}, in(connectPkt(false, nil)), step{kind: "drain"})
 					}
 				}
+				steps = append(steps, step{kind: "drain"})
+				add(&scenario{name: fmt.Sprintf("w%d-%s-rc%v-n%d", w, react, reconnect, n), w: w, react: react, steps: steps})
 			}
-			if pattern != "none" {
-				for _, id := range pending {
-					ackOne(id, qosOf[id])
-				}
-			}
-			add(&scenario{name: fmt.Sprintf("w%d-%s-n%d", w, pattern, n), w: w, steps: steps})
 		}
+		// nothing is ever acknowledged: the window fills and stays full
+		var steps []step
+		steps = append(steps, in(connectPkt(false, nil)))
+		for i := 0; i < 2*w+1; i++ {
+			steps = append(steps, step{kind: "deq", msg: msg(i, 1+i%2)})
+		}
+		add(&scenario{name: fmt.Sprintf("w%d-none", w), w: w, steps: steps})
 	}
 	// dequeue token timeout: nothing acknowledged, window full
 	add(&scenario{name: "deq-token-timeout", w: 1, tokenTO: 20 * time.Millisecond, steps: []step{in(connectPkt(false, nil)), {kind: "deq", msg: msg(1, 1)},
